@@ -54,7 +54,7 @@ theorem step_nextId (cfg : Cfg) (c : Cache σ) (op : Op) :
     c.nextId ≤ (Cache.step P cfg c op).1.nextId ∧
     ∀ r ∈ admittedOf op (Cache.step P cfg c op).2, r.id = c.nextId ∧ (Cache.step P cfg c op).1.nextId = c.nextId + 1 := by
   cases op with
-  | ins key ver weight hint phantom =>
+  | ins key ver weight hint phantom loc age =>
     simp only [Cache.step]
     split
     · simp [admittedOf]
@@ -181,7 +181,7 @@ theorem pipe_iff_evict (cfg : Cfg) (c : Cache σ) (op : Op) :
       rw [this]
       simp
   cases op with
-  | ins key ver weight hint phantom => simp only [Cache.step]; split <;> simp [evictedOf]
+  | ins key ver weight hint phantom loc age => simp only [Cache.step]; split <;> simp [evictedOf]
   | get key =>
     simp only [Cache.step]
     split
@@ -217,7 +217,7 @@ theorem pipe_iff_evict (cfg : Cfg) (c : Cache σ) (op : Op) :
 theorem reason_correct (cfg : Cfg) (c : Cache σ) (op : Op) :
     ∀ e r, (e, r) ∈ (Cache.step P cfg c op).2.leaves →
       match op with
-      | .ins key _ _ _ phantom =>
+      | .ins key _ _ _ phantom _ _ =>
           e = Reason.evict ∨ (e = Reason.replace ∧ r.key = key) ∨ (e = Reason.remove ∧ phantom = true ∧ r.phantom = true)
       | .remove key => e = Reason.remove ∧ r.key = key
       | .drop rid => e = Reason.evict ∧ r.phantom = true ∧ r.id = rid
@@ -240,7 +240,7 @@ theorem reason_correct (cfg : Cfg) (c : Cache σ) (op : Op) :
       · exact ih _ e r h
   intro e r h
   cases op with
-  | ins key ver weight hint phantom =>
+  | ins key ver weight hint phantom loc age =>
     simp only [Cache.step] at h
     split at h
     · simp at h
